@@ -318,8 +318,17 @@ func (g *c9gen) genAny(d int, bin, hard bool) any {
 		return []any{}
 	default:
 		if bin && hard {
-			var x any = c9Bin(g.bin())
-			return &x // pointer to an interface: not looked into, then refused by the JSON encoder
+			// pointer to an interface: the Binary is behind three wrappers, neither hasBinary nor
+			// deconstruct looks at it, the JSON encoder then writes its bytes as they are (refused
+			// when they are not JSON, wrong frames when they are: finding binary-behind-deep-wrappers).
+			// A nil Binary is not used here: written directly it marshals as null while an empty one
+			// is refused, a distinction the model's Binary cell does not carry.
+			b := g.bin()
+			if b == nil {
+				b = []byte{}
+			}
+			var x any = c9Bin(b)
+			return &x
 		}
 		return g.str()
 	}
